@@ -2,6 +2,7 @@
 package color
 
 import (
+	"encoding/json"
 	"fmt"
 	"strings"
 )
@@ -145,4 +146,47 @@ func ToAttribute(s string) (Attribute, error) {
 	default:
 		return AttrNone, fmt.Errorf("unknown text attribute '" + s + "'")
 	}
+}
+
+// UnmarshalJSON translates the color name of a JSON config file (e.g. "Blue"
+// or "FgBlue") into the foreground color code. Without this the name itself
+// ended up in the colored output.
+func (c *FgColor) UnmarshalJSON(b []byte) error {
+	var name string
+	if err := json.Unmarshal(b, &name); err != nil {
+		return err
+	}
+	*c, _ = ToFgColor(trimNamePrefix(name, "Fg"))
+	return nil
+}
+
+// UnmarshalJSON translates the color name of a JSON config file (e.g. "Blue"
+// or "BgBlue") into the background color code.
+func (c *BgColor) UnmarshalJSON(b []byte) error {
+	var name string
+	if err := json.Unmarshal(b, &name); err != nil {
+		return err
+	}
+	*c, _ = ToBgColor(trimNamePrefix(name, "Bg"))
+	return nil
+}
+
+// UnmarshalJSON translates the attribute name of a JSON config file (e.g.
+// "Dim" or "AttrDim") into the text attribute code.
+func (a *Attribute) UnmarshalJSON(b []byte) error {
+	var name string
+	if err := json.Unmarshal(b, &name); err != nil {
+		return err
+	}
+	*a, _ = ToAttribute(trimNamePrefix(name, "Attr"))
+	return nil
+}
+
+// The config file may spell a name with the prefix of the constant (FgBlue,
+// BgBlue, AttrDim) or without it (Blue, Dim).
+func trimNamePrefix(name, prefix string) string {
+	if len(name) > len(prefix) && strings.EqualFold(name[:len(prefix)], prefix) {
+		return name[len(prefix):]
+	}
+	return name
 }
